@@ -20,17 +20,17 @@ from ..model import dotted
 IMG = "droplets.image_analysis"
 
 
-def nonempty_guard(test, name, polarity: bool):
+def nonempty_guard(test, name, polarity: bool, exact: bool = False):
     """Does ``test`` (taken with ``polarity``) establish that ``name`` is non-empty?
     Handles conjunctions for positive polarity and disjunctions for negative polarity."""
     if isinstance(test, ast.BoolOp):
         if isinstance(test.op, ast.And) and polarity:
-            return any(nonempty_guard(v, name, True) for v in test.values)
+            return any(nonempty_guard(v, name, True, exact) for v in test.values)
         if isinstance(test.op, ast.Or) and not polarity:
-            return any(nonempty_guard(v, name, False) for v in test.values)
+            return any(nonempty_guard(v, name, False, exact) for v in test.values)
         return False
     if isinstance(test, ast.UnaryOp) and isinstance(test.op, ast.Not):
-        return nonempty_guard(test.operand, name, not polarity)
+        return nonempty_guard(test.operand, name, not polarity, exact)
     if isinstance(test, ast.Name) and test.id == name:
         return polarity
     cp = compare_parts(test)
@@ -39,6 +39,9 @@ def nonempty_guard(test, name, polarity: bool):
         is_len = isinstance(l, ast.Call) and dotted(l.func) == "len" and l.args and U(l.args[0]) == name
         if is_len and isinstance(r, ast.Constant) and isinstance(r.value, int):
             k = r.value
+            if exact and polarity:
+                # equivalent to "not empty", not merely implying it (len(x) > 1 is false for a collection of one)
+                return (isinstance(op, ast.Gt) and k == 0) or (isinstance(op, ast.GtE) and k == 1) or (isinstance(op, ast.NotEq) and k == 0)
             if polarity:
                 return (isinstance(op, ast.Gt) and k >= 0) or (isinstance(op, ast.GtE) and k >= 1) or (isinstance(op, ast.NotEq) and k == 0)
             return (isinstance(op, ast.Eq) and k == 0) or (isinstance(op, ast.Lt) and k == 1) or (isinstance(op, ast.LtE) and k == 0)
